@@ -282,12 +282,17 @@ def run_case(case):
         shape = "+".join(sorted(k for k in ks if k in ("FU", "CT", "P"))) or "leaf"
         if "pass" in ks:
             shape += "+passthrough"
-        for final in ("none", "reg", "clf"):
+        for final in ("none", "reg", "clf", "kmeans", "lda"):
             def make():
                 t = _build(prog)
                 if final == "none":
                     return t if not isinstance(t, str) else None
-                return Pipeline([("prep", t), ("model", LinearRegression() if final == "reg" else LogisticRegression())])
+                # final steps with prediction methods only, and final steps that have BOTH transform and prediction methods
+                from sklearn.cluster import KMeans
+                from sklearn.discriminant_analysis import LinearDiscriminantAnalysis
+                fin = {"reg": LinearRegression, "clf": LogisticRegression, "lda": LinearDiscriminantAnalysis,
+                       "kmeans": lambda: KMeans(n_clusters=2, n_init=2, random_state=0)}[final]()
+                return Pipeline([("prep", t), ("model", fin)])
             pipe = make()
             if pipe is None:
                 continue
@@ -300,7 +305,7 @@ def run_case(case):
             invalid = False
             # validity first: only programs scikit-learn itself can fit
             try:
-                make().fit(data, ycl if final == "clf" else yreg)
+                make().fit(data, ycl if final in ("clf", "lda") else yreg)
             except Exception:
                 skipped += 1
                 cnt -= 1
@@ -310,7 +315,7 @@ def run_case(case):
             for state in ("unfitted", "fitted"):
                 if state == "fitted":
                     try:
-                        pipe.fit(data, ycl if final == "clf" else yreg)
+                        pipe.fit(data, ycl if final in ("clf", "lda") else yreg)
                     except Exception as ex:
                         invalid = True   # not a program scikit-learn can fit with this schema: outside the quantifier
                         break
@@ -402,7 +407,7 @@ def run_case(case):
                     bad("pipeline2dot: a final output is not reachable from the inputs", cond, "%r %s\n%s" % (lost, desc, dot[:900]))
             # ---------------------------------------------------------------- debugging
             P = data.iloc[:4] if case["named"] else X[:4]
-            meths = [mm for mm in ("predict", "predict_proba", "transform") if hasattr(pipe, mm)]
+            meths = [mm for mm in ("predict", "predict_proba", "decision_function", "transform") if hasattr(pipe, mm)]
             before = {}
             for mm in meths:
                 try:
@@ -423,6 +428,33 @@ def run_case(case):
                     continue
                 if after.shape != before[mm].shape or not numpy.array_equal(after, before[mm]):
                     bad("output changed by alter_pipeline_for_debugging", cond, "%s %s" % (mm, desc))
+                # the call just made is the last one: the pipeline and its final step must hold its input and output under the
+                # name of the method that was called
+                if isinstance(pipe, Pipeline):
+                    fin_ = pipe.steps[-1][1]
+                    for who, obj_, want_in in (("the pipeline", pipe, P), ("the final step", fin_, None)):
+                        dbg = getattr(obj_, "_debug", None)
+                        if isinstance(obj_, str):
+                            continue
+                        rec_o = None if dbg is None else dbg.outputs.get(mm)
+                        rec_i = None if dbg is None else dbg.inputs.get(mm)
+                        mcond = "%s,final step has %s" % (cond, "transform and prediction methods" if hasattr(fin_, "transform") and hasattr(fin_, "predict")
+                                                          else ("prediction methods" if hasattr(fin_, "predict") else "transform"))
+                        if rec_o is None or rec_i is None:
+                            bad("%s did not record the call of a method" % who, mcond, "%s.%s %s" % (type(obj_).__name__, mm, desc))
+                            continue
+                        ro = numpy.asarray(rec_o)
+                        if ro.shape != after.shape or not numpy.array_equal(ro, after):
+                            bad("%s recorded another output than the one returned" % who, mcond, "%s.%s %s" % (type(obj_).__name__, mm, desc))
+                        if want_in is not None:
+                            ri = numpy.asarray(rec_i)
+                            if ri.shape != numpy.asarray(want_in).shape or not numpy.array_equal(ri, numpy.asarray(want_in)):
+                                bad("%s recorded another input than the one given" % who, mcond, "%s.%s %s" % (type(obj_).__name__, mm, desc))
+                        elif len(pipe.steps) >= 2 and not isinstance(pipe.steps[-2][1], str):
+                            dprev = getattr(pipe.steps[-2][1], "_debug", None)
+                            po = None if dprev is None else dprev.outputs.get("transform")
+                            if po is not None and (numpy.asarray(po).shape != numpy.asarray(rec_i).shape or not numpy.array_equal(numpy.asarray(po), numpy.asarray(rec_i))):
+                                bad("consecutive steps do not chain", mcond, "%s -> %s.%s %s" % (type(pipe.steps[-2][1]).__name__, type(obj_).__name__, mm, desc))
             for est in _executed(pipe):
                 dbg = getattr(est, "_debug", None)
                 if dbg is None or not dbg.inputs or set(dbg.inputs) != set(dbg.outputs):
